@@ -202,7 +202,7 @@ MW_FREE_MUTEX4 = ['Mr1d|Mr1|@2 Z|R', 'Mw1d|Mr1|@2 Z|R', 'Mr1d|Mw2|@2 Z|R', 'Mr1d
 def mw_c05(tier):
     J = []
     for p in MW_FREE_MUTEX: J.append((p, 2 if tier == 'quick' else 3, 1))
-    for p in MW_FREE_MUTEX4: J.append((p, 1 if tier == 'quick' else 2, 1))
+    for p in MW_FREE_MUTEX4: J.append((p, 1, 1))
     Pq = 3 if tier == 'quick' else 5
     for a in ['Mw1d', 'Mr1d', 'Mw1p', 'Mr1p', 'Mw1N', 'Mr1N', 'Mw1x', 'Mr1x', 'Mw1dN', 'Mw1px', 'Mw3d']:
         for k in ['A', 'Z', 'R', '@1 A', '@1 Z', 'B']:
@@ -237,8 +237,8 @@ def once_programs(tier):
     kinds = ['O', 'Oa', 'Os', 'Oas']
     import itertools
     for a, b in itertools.combinations_with_replacement(kinds, 2):
-        J.append(('%s|%s' % (a, b), 4 if tier == 'quick' else 8, 1))
-        J.append(('%s %s|%s' % (a, a, b), 3 if tier == 'quick' else 5, 1))
+        J.append(('%s|%s' % (a, b), 4 if tier == 'quick' else 6, 1))
+        J.append(('%s %s|%s' % (a, a, b), 3 if tier == 'quick' else 4, 1))
     for a, b, c in itertools.combinations_with_replacement(kinds, 3):
         J.append(('%s|%s|%s' % (a, b, c), 2, 1 if tier == 'quick' else 2))
     for p in ['O|O2', 'O|Os2', 'O O2|O2 O', 'O|O|O2', 'O|Os|O2', 'Oa|Oa2|Os2', 'O|O|O|O', 'O|Os|Oa|Oas', 'O|O2|O|O2']:
@@ -251,19 +251,19 @@ def once_programs(tier):
         J.append((p, 1 if tier == 'quick' else 2, 1))
     if tier == 'thorough':
         for a, b, c in itertools.combinations_with_replacement(kinds, 3):
-            J.append(('%s|%s|%s' % (a, b, c), 3, 2))
-        for p in ['O|O|O|O', 'O|Os|Oa|Oas', 'O|O2|O|O2', 'O|Os|O2|Os2']: J.append((p, 2, 1))
+            J.append(('%s|%s|%s' % (a, b, c), 3, 1))
+        J.append(('O|Os|O2|Os2', 1, 1))
     return J
 
 # ---------------- counter ----------------
 def counter_programs(tier):
     J = []
     two = ['1:-|w', '1:-|wd', '1:-|wp', '1:-|n', '1:-|v', '1:- v|w', '2:- -|w', '2:-|- w', '1:+ - -|w', '1:+ -|- v', '2:- v|- v', '1:- w|w', '1:-|v w', '1:- wd|v', '2:-|wd v', '1:+|wp']
-    for p in two: J.append((p, 4 if tier == 'quick' else 12, 1 if tier == 'quick' else 2))
+    for p in two: J.append((p, 4 if tier == 'quick' else 8, 1))
     three = ['1:-|+ -|w', '1:-|+ -|wd', '1:-|+ -|n', '1:- v|+ -|w', '0:+ -|+ -|w', '1:-|+ - v|w',  '2:-|-|w', '2:-|-|wd', '2:-|-|n', '1:-|w|w', '1:-|w|wd', '1:-|n|w', '1:-|w|v', '2:-|- v|w', '1:+ -|-|w', '2:- w|-|v', '1:-|wd|wp', '2:-|-|v v', '1:+ -|- w|v', '3:-|-|- w']
-    for p in three: J.append((p, 2 if tier == 'quick' else 4, 1))
+    for p in three: J.append((p, 2 if tier == 'quick' else 3, 1))
     four = ['1:-|+ -|w|w', '1:-|+ -|w|v', '2:-|-|w|w', '2:-|-|w|n', '2:-|-|wd|v', '1:-|w|w|w', '3:-|-|-|w']
-    for p in four: J.append((p, 1 if tier == 'quick' else 3, 1 if 'd' in p else 0))
+    for p in four: J.append((p, 1 if tier == 'quick' else 2, 1 if 'd' in p else 0))
     return J
 
 # ---------------- note ----------------
@@ -312,7 +312,7 @@ def note_c09(tier):
     for p in progs:
         n = p.count('|') + 1
         if tier == 'quick': P = 3 if n == 2 else 2 if n == 3 else 1
-        else: P = 8 if n == 2 else 4 if n == 3 else 3
+        else: P = 6 if n == 2 else 3 if n == 3 else 2
         J.append((p, P, 1 if any(c in p.split(':')[0] for c in '12') else 0))
     return J
 
